@@ -168,7 +168,7 @@ fn to_raw_record(prog: &GProgram, e: &GExpr) -> Option<GExpr> {
     }
 }
 
-pub const MUTATIONS: [&str; 17] = [
+pub const MUTATIONS: [&str; 18] = [
     "record_drop_field",
     "record_duplicate_field",
     "record_rename_field",
@@ -186,6 +186,7 @@ pub const MUTATIONS: [&str; 17] = [
     "untyped_list_index",
     "mint_amount_is_input",
     "nested_property",
+    "utxo_ref_literal_at_limits",
 ];
 
 /// returns the mutated program or None when the mutation does not apply to this program
@@ -314,6 +315,19 @@ pub fn mutate(case: &Case, kind: usize, t: &mut Tape) -> Option<GProgram> {
         }
         "odd_hex_literal" => apply_to_node(&mut prog, t, &|e| matches!(e, GExpr::Hex(_)), &mut |e, t| {
             *e = GExpr::Raw(["0xABC", "0x0", "0xabcde"][t.pick(3)].to_string())
+        }),
+        // literals at the limits of what the grammar takes: output indices up to and beyond 32 and 64 bits,
+        // transaction ids that are not 32 bytes
+        "utxo_ref_literal_at_limits" => apply_to_node(&mut prog, t, &|e| matches!(e, GExpr::RefLit(..)), &mut |e, t| {
+            if let GExpr::RefLit(txid, _) = e {
+                let ix = ["4294967295", "4294967296", "4294967301", "18446744073709551615", "65536", "0000000000000000000000000007"][t.pick(6)];
+                let id = match t.pick(4) {
+                    0 => hex::encode(&txid[..31]),
+                    1 => format!("{}00", hex::encode(&txid)),
+                    _ => hex::encode(&txid),
+                };
+                *e = GExpr::Raw(format!("0x{}#{}", id, ix));
+            }
         }),
         "property_on_unsupported_value" => apply_to_node(
             &mut prog,
